@@ -219,6 +219,10 @@ REGRESSION = [
     ("covmodel", [1, 1, 1, 1, 1]),       # angles setter of a temporal model
     ("covmodel", [5, 1, 0, 0, 0]),       # dim setter of a temporal model (re-formats the stored angles)
     ("covmodel", [0, 3, 1, 1, 1]),
+    ("geo_tool", [9, 0, 1]),             # latlon2pos(temporal=True, time_scale != 1) on float64 (3, n) (seed C20-9)
+    ("geo_tool", [12, 0, 1]),            # great_circle_to_chordal beyond half the circumference (seed C20-10)
+    ("model_eval", [0, 3, 0]),           # isometrize of a lat-lon + time model with time anisotropy != 1
+    ("model_eval", [1, 3, 0]),
 ]
 
 
@@ -330,8 +334,8 @@ def run(ctx, only=None):
                     # entry points with at most 2000 configurations, a rotating one for the large ones
                     small = E.CFG_COUNT[name] <= 2000
                     runs = [((i + off) % E.N_VARIANTS, False), ((i + off) % E.N_VARIANTS, True)]
-                    if name == "krige_call" and i % 2:
-                        runs = runs[:1]        # the most expensive entry: read-only mode on every second configuration
+                    if (name == "krige_call" and i % 3) or (name in ("vario_estimate", "srf_call", "transform") and i % 2):
+                        runs = runs[:1]        # the largest spaces: read-only mode on every 3rd / 2nd configuration
                     if small:
                         runs += [((i + off + 1) % E.N_VARIANTS, False)]
                         if E.CFG_COUNT[name] <= 500:
@@ -391,25 +395,27 @@ def replay(ctx, path):
 
 ENTRY_NAMES = ["vario_estimate", "vario_estimate_axis", "standard_bins", "field_call", "post_field",
                "apply_mean_norm_trend", "remove_trend_norm_mean", "transform", "srf_call", "krige_condition",
-               "krige_call", "condsrf_call", "fit_variogram", "normalizer", "generator", "array_fn", "covmodel"]
+               "krige_call", "condsrf_call", "fit_variogram", "normalizer", "generator", "array_fn", "covmodel", "geo_tool", "model_eval"]
 DIMS = {
     "vario_estimate": [2, 3, 3, 2, 3, 2, 2, 2, 2, 2, 2, 2, 3],
     "vario_estimate_axis": [2, 3, 2, 2, 2],
     "standard_bins": [3, 2, 2, 2, 4],
-    "field_call": [3, 4, 2, 3, 2, 2, 3],
+    "field_call": [3, 4, 2, 3, 2, 2, 4],
     "post_field": [3, 2, 3, 2],
     "apply_mean_norm_trend": [2, 3, 2, 2, 2, 2],
     "remove_trend_norm_mean": [2, 3, 2, 2, 2, 2],
     "transform": [10, 2, 3, 2, 2, 3, 3],
-    "srf_call": [3, 3, 2, 2, 3, 2, 4, 3],
+    "srf_call": [3, 3, 2, 2, 3, 2, 4, 4],
     "krige_condition": [3, 3, 3, 4, 2, 2, 2],
-    "krige_call": [3, 2, 4, 2, 2, 2, 3, 2, 2, 3],
-    "condsrf_call": [3, 2, 2, 3, 2, 2, 2, 3],
+    "krige_call": [3, 2, 4, 2, 2, 2, 3, 2, 2, 4],
+    "condsrf_call": [3, 2, 2, 3, 2, 2, 2, 4],
     "fit_variogram": [3, 3, 4, 2, 2, 2],
     "normalizer": [7, 6, 2, 2, 2, 3],
     "generator": [3, 2, 2, 2],
     "array_fn": [8, 2, 3],
     "covmodel": [6, 4, 5, 5, 4],
+    "geo_tool": [16, 3, 3],
+    "model_eval": [7, 4, 3],
 }
 DIGIT_NAMES = {
     "vario_estimate": ["pos", "field", "bin_edges", "mask", "direction", "angles", "latlon", "geo_scale!=1", "mean+trend+normalizer",
@@ -431,6 +437,8 @@ DIGIT_NAMES = {
     "generator": ["generator", "pos", "nugget", "options"],
     "array_fn": ["function", "field", "numeric_args"],
     "covmodel": ["operation", "model_kind", "angles", "anis", "len_scale"],
+    "geo_tool": ["function", "array", "options"],
+    "model_eval": ["method", "model_kind", "array"],
 }
 QUICK_BUDGET = {"vario_estimate": 3000, "krige_call": 400, "srf_call": 300, "krige_condition": 200, "condsrf_call": 200,
                 "field_call": 300, "fit_variogram": 60, "normalizer": 200, "transform": 360, "covmodel": 500}
@@ -465,6 +473,8 @@ def nontrivial(name, cfg):
     alias_digits = [k for k in d if k in ("pos", "field", "bin_edges", "data", "cond_pos", "cond_val", "x_data", "y_data")]
     if name == "array_fn":
         return d["field"] == 0
+    if name in ("geo_tool", "model_eval"):
+        return d["array"] < 2
     if name in ("transform", "post_field", "condsrf_call", "krige_call"):
         return True
     if d.get("history", 0):
@@ -586,20 +596,33 @@ def mtn_kwargs(on, vector=False):
     return dict(mean=0.3, trend=(lambda *x: 0.01 * x[0]), normalizer=gs.normalizer.LogNormal())
 
 
-def base_values(rng, structured, latlon=False, other=False):
+def f32exact(a):
+    """round to values that are exactly representable in float32: a float32 / list realisation of the same positions
+    then converts to exactly the same float64 values (Field._pos_equal compares exactly since /repo bd353ac)"""
+    return np.asarray(a, dtype=np.float32).astype(np.double)
+
+
+def base_values(rng, structured, latlon=False, other=False, st=False):
     """positions (float64, target layout) and the field shape"""
+    if st:      # latitude, longitude, time
+        off = 3.0 if other else 0.0
+        if structured:
+            ax = (np.sort(rng.uniform(-60, 60, 4)) + off, np.sort(rng.uniform(-150, 150, 6)), np.sort(rng.uniform(0, 10, 4)))
+            return tuple(f32exact(a) for a in ax), (4, 6, 4)
+        n = 6
+        return f32exact(np.vstack([rng.uniform(-60, 60, n) + off, rng.uniform(-150, 150, n), rng.uniform(0, 10, n)])), (n,)
     if structured:
         if latlon:
             x = np.sort(rng.uniform(-60, 60, 4)); y = np.sort(rng.uniform(-150, 150, 6))
         else:
             x = np.sort(rng.uniform(0, 10, 4)) + (3.0 if other else 0.0); y = np.sort(rng.uniform(0, 10, 6))
-        return (x, y), (4, 6)
+        return (f32exact(x), f32exact(y)), (4, 6)
     n = 6
     if latlon:
         pos = np.vstack([rng.uniform(-60, 60, n), rng.uniform(-150, 150, n)])
     else:
         pos = rng.uniform(0, 10, (2, n)) + (3.0 if other else 0.0)
-    return pos, (n,)
+    return f32exact(pos), (n,)
 
 
 def mk_pos(values, lay, variant, structured):
@@ -613,8 +636,11 @@ def mk_pos(values, lay, variant, structured):
     return mk_lay(values, lay, variant)
 
 
-def the_model(nugget=0.0, latlon=False):
+def the_model(nugget=0.0, latlon=False, st=False):
     import gstools as gs
+    if st:      # lat-lon + time model with a time anisotropy != 1: isometrize() scales the time axis
+        return gs.Gaussian(latlon=True, temporal=True, var=1.5, len_scale=700.0, anis=0.25, nugget=nugget,
+                           geo_scale=gs.KM_SCALE)
     if latlon:
         return gs.Exponential(latlon=True, var=1.5, len_scale=0.5, nugget=nugget, geo_scale=gs.KM_SCALE)
     return gs.Gaussian(dim=2, var=1.5, len_scale=2.0, nugget=nugget)
@@ -726,9 +752,10 @@ def real_standard_bins(cfg, rng, variant):
     return w
 
 
-def field_history(w, obj, rng, structured, hist, call0, extra_pre=()):
-    """earlier call on the object; registers the earlier results as cells; returns position values"""
-    pv0, fshape = base_values(rng, structured)
+def field_history(w, obj, rng, structured, hist, call0, extra_pre=(), st=False):
+    """earlier call on the object; registers the earlier results as cells; returns position values
+    (None for history 3: the call under test is made WITHOUT pos, on the stored positions)"""
+    pv0, fshape = base_values(rng, structured, st=st)
     if hist:
         call0(pv0)
         p = obj.pos
@@ -738,9 +765,20 @@ def field_history(w, obj, rng, structured, hist, call0, extra_pre=()):
     if hist == 1:
         return (tuple(a.copy() for a in pv0) if structured else pv0.copy()), fshape
     if hist == 2:
-        pv, _ = base_values(rng, structured, other=True)
+        pv, _ = base_values(rng, structured, other=True, st=st)
         return pv, fshape
+    if hist == 3:
+        return None, fshape
     return pv0, fshape
+
+
+def mk_pos_opt(w, pv, lay, variant, structured):
+    """position argument (None when the stored positions are to be used)"""
+    if pv is None:
+        return None
+    pos, held = mk_pos(pv, lay, variant, structured)
+    w.arg(0, "pos", held)
+    return pos
 
 
 STORE3 = {0: True, 1: "a", 2: False}
@@ -751,13 +789,13 @@ def real_field_call(cfg, rng, variant):
     import gstools as gs
     play, fld, pp, store, mtn, structured, hist = cfg
     w = World("field_call", 2)
-    obj = gs.field.Field(the_model(), **mtn_kwargs(mtn))
+    st = variant == 2       # realisation 2: lat-lon + time model (time anisotropy != 1), positions (lat, lon, t)
+    obj = gs.field.Field(the_model(st=st), **mtn_kwargs(mtn))
     w.obj = obj
     mt = "structured" if structured else "unstructured"
     pv, fshape = field_history(w, obj, rng, structured, hist, lambda p: obj(p, mesh_type=mt),
-                               extra_pre=[(A_FIELD, obj, "field")])
-    pos, held = mk_pos(pv, play, variant, structured)
-    w.arg(0, "pos", held)
+                               extra_pre=[(A_FIELD, obj, "field")], st=st)
+    pos = mk_pos_opt(w, pv, play, variant, structured)
     arr = None
     if fld:
         arr, h = mk_lay(rng.normal(size=fshape), fld - 1, variant)
@@ -938,13 +976,14 @@ def real_srf_call(cfg, rng, variant):
         gkw.update(mode_no=20)
     else:
         gkw.update(mode_no=20)
-    obj = gs.SRF(the_model(), seed=int(rng.integers(1 << 30)), upscaling="coarse_graining", **gkw, **mtn_kwargs(mtn, vector=gen == 1))
+    st = variant == 2 and gen == 0 and pvd == 0     # lat-lon + time model (RandMeth, no upscaling)
+    obj = gs.SRF(the_model(st=st), seed=int(rng.integers(1 << 30)), upscaling="coarse_graining", **gkw,
+                 **mtn_kwargs(mtn, vector=gen == 1))
     w.obj = obj
     mt = "structured" if structured else "unstructured"
     pv, fshape = field_history(w, obj, rng, structured, hist, lambda p: obj(p, mesh_type=mt),
-                               extra_pre=[(A_FIELD, obj, "field")])
-    pos, held = mk_pos(pv, play, variant, structured)
-    w.arg(0, "pos", held)
+                               extra_pre=[(A_FIELD, obj, "field")], st=st)
+    pos = mk_pos_opt(w, pv, play, variant, structured)
     kw = {}
     if pvd:
         vol = rng.uniform(0.5, 1.5, fshape)
@@ -959,8 +998,11 @@ def real_srf_call(cfg, rng, variant):
     return w
 
 
-def cond_values(rng, n=10):
-    cp = rng.uniform(0, 10, (2, n))
+def cond_values(rng, n=10, st=False):
+    if st:
+        cp = np.vstack([rng.uniform(-60, 60, n), rng.uniform(-150, 150, n), rng.uniform(0, 10, n)])
+    else:
+        cp = rng.uniform(0, 10, (2, n))
     cv = rng.uniform(1.0, 2.0, n)
     return cp, cv
 
@@ -971,7 +1013,8 @@ def real_krige_condition(cfg, rng, variant):
     cpl, cvl, ext, err, fitv, mtn, recond = cfg
     w = World("krige_condition", 4)
     n = 10
-    cpv, cvv = cond_values(rng, n)
+    st = variant == 2 and not fitv      # lat-lon + time model (fit_variogram is rejected for it)
+    cpv, cvv = cond_values(rng, n, st)
     cp, h = mk_lay(cpv, cpl, variant); w.arg(0, "cond_pos", h)
     cv, h = mk_lay(cvv, cvl, variant); w.arg(1, "cond_val", h)
     kw = {}
@@ -985,7 +1028,7 @@ def real_krige_condition(cfg, rng, variant):
         ce, h = mk_lay(rng.uniform(0.05, 0.2, n), 0 if err == 2 else 2, variant if err == 2 else 0)
         kw["cond_err"] = ce; w.arg(3, "cond_err", h)
     kw["fit_variogram"] = bool(fitv)
-    probe_pos = rng.uniform(0, 10, (2, 4))
+    probe_pos = cond_values(rng, 4, st)[0]
     getk = {}
     w.result_probe = lambda: getk["k"]()(probe_pos, ext_drift=(np.linspace(0.0, 1.0, 4) if ext else None),
                                          return_var=False, store=False)      # kriging from the stored conditions
@@ -997,8 +1040,8 @@ def real_krige_condition(cfg, rng, variant):
     holder = {}
     w.nret = 0
     if recond:
-        cp0, cv0 = cond_values(rng, n)
-        k0 = gs.krige.Krige(the_model(nugget=0.1 * variant), cp0, cv0, ext_drift=(rng.normal(size=n) if ext else None),
+        cp0, cv0 = cond_values(rng, n, st)
+        k0 = gs.krige.Krige(the_model(nugget=0.1 * variant, st=st), cp0, cv0, ext_drift=(rng.normal(size=n) if ext else None),
                             **ckw, **mtn_kwargs(mtn))
         w.obj = k0
         for a in (A_CPOS, A_CVAL, A_CEXT, A_KPOS, A_KMAT):
@@ -1020,7 +1063,7 @@ def real_krige_condition(cfg, rng, variant):
         getk["k"] = lambda: holder["k"]
 
         def call():
-            holder["k"] = gs.krige.Krige(the_model(nugget=0.1 * variant), cp, cv, **kw, **ckw, **mtn_kwargs(mtn))
+            holder["k"] = gs.krige.Krige(the_model(nugget=0.1 * variant, st=st), cp, cv, **kw, **ckw, **mtn_kwargs(mtn))
             return []
         w.call = call
     return w
@@ -1035,20 +1078,20 @@ def real_krige_call(cfg, rng, variant):
     play, structured, ext, only_mean, rv, pp, store, chunk, mtn, hist = cfg
     w = World("krige_call", 2)
     n = 8
-    cpv, cvv = cond_values(rng, n)
+    st = variant == 2
+    cpv, cvv = cond_values(rng, n, st)
     ckw = [{}, dict(exact=True, pseudo_inv_type="pinvh"), dict(unbiased=False, cond_err=rng.uniform(0.05, 0.2, n))][variant]
-    k = gs.krige.Krige(the_model(nugget=0.1 * variant), cpv, cvv, ext_drift=(rng.normal(size=n) if ext else None),
+    k = gs.krige.Krige(the_model(nugget=0.1 * variant, st=st), cpv, cvv, ext_drift=(rng.normal(size=n) if ext else None),
                        **ckw, **mtn_kwargs(mtn))
     w.obj = k
     mt = "structured" if structured else "unstructured"
     for a in (A_CPOS, A_CVAL, A_CEXT, A_KPOS, A_KMAT):
         w.pre(a, [getattr(k, ATTR_NAME[a])])
-    npts = 24 if structured else 6
+    npts = ((96 if st else 24) if structured else 6)
     pv, fshape = field_history(w, k, rng, structured, hist,
                                lambda p: k(p, mesh_type=mt, ext_drift=(rng.normal(size=npts) if ext else None)),
-                               extra_pre=[(A_FIELD, k, "field"), (A_KVAR, k, "krige_var")])
-    pos, held = mk_pos(pv, play, variant, structured)
-    w.arg(0, "pos", held)
+                               extra_pre=[(A_FIELD, k, "field"), (A_KVAR, k, "krige_var")], st=st)
+    pos = mk_pos_opt(w, pv, play, variant, structured)
     kw = {}
     if ext:
         e, h = mk_lay(rng.normal(size=(1, npts)), ext - 1, variant)
@@ -1074,8 +1117,9 @@ def real_condsrf_call(cfg, rng, variant):
     play, structured, pp, store, kstore, mtn, nugget, hist = cfg
     w = World("condsrf_call", 1)
     n = 8
-    cpv, cvv = cond_values(rng, n)
-    k = gs.krige.Krige(the_model(nugget=0.2 if nugget else 0.0), cpv, cvv, **mtn_kwargs(mtn))
+    stk = variant == 2
+    cpv, cvv = cond_values(rng, n, stk)
+    k = gs.krige.Krige(the_model(nugget=0.2 if nugget else 0.0, st=stk), cpv, cvv, **mtn_kwargs(mtn))
     c = gs.CondSRF(k, seed=int(rng.integers(1 << 30)), mode_no=20)
     w.obj = c
     for a in (A_POS, A_FIELD, A_KVAR, A_CPOS, A_CVAL, A_CEXT, A_KPOS, A_KMAT):
@@ -1083,7 +1127,7 @@ def real_condsrf_call(cfg, rng, variant):
     mt = "structured" if structured else "unstructured"
     for a in (A_CPOS, A_CVAL, A_CEXT, A_KPOS, A_KMAT):
         w.pre(a, [getattr(k, ATTR_NAME[a])])
-    pv0, fshape = base_values(rng, structured)
+    pv0, fshape = base_values(rng, structured, st=stk)
     if hist:
         c(pv0, mesh_type=mt)
         p = k.pos
@@ -1093,11 +1137,12 @@ def real_condsrf_call(cfg, rng, variant):
     if hist == 1:
         pv = tuple(a.copy() for a in pv0) if structured else pv0.copy()
     elif hist == 2:
-        pv, _ = base_values(rng, structured, other=True)
+        pv, _ = base_values(rng, structured, other=True, st=stk)
+    elif hist == 3:
+        pv = None
     else:
         pv = pv0
-    pos, held = mk_pos(pv, play, variant, structured)
-    w.arg(0, "pos", held)
+    pos = mk_pos_opt(w, pv, play, variant, structured)
     st = {0: True, 1: ["x", "y", "z"], 2: False}[store]
     w.nret = 1
     w.call = lambda: [c(pos, seed=11, mesh_type=mt, post_process=bool(pp), store=st, krige_store=bool(kstore))]
@@ -1299,6 +1344,204 @@ def real_covmodel(cfg, rng, variant):
     return w
 
 
+def mk_arr(vals, lay, variant, reshape):
+    """array argument of layout class lay for a function with (reshape=True) or without a reshape step:
+    without reshape class 1 is a strided (non-contiguous) float64 view, which np.asarray still aliases"""
+    vals = np.asarray(vals, dtype=np.double)
+    if reshape or lay != 1:
+        return mk_lay(vals, lay, variant if (reshape or lay == 2) else variant % 2, reshape=reshape)
+    if vals.ndim == 1:
+        big = np.zeros(2 * vals.size + 1); v = big[1::2]
+    else:
+        big = np.zeros(vals.shape[:-1] + (2 * vals.shape[-1],)); v = big[..., ::2]
+    v[...] = vals
+    return v, [v]
+
+
+GEO_FNS = ["set_angles", "set_anis", "matrix_*", "generate_grid", "generate_st_grid", "format_struct_pos_dim",
+           "format_struct_pos_shape", "format_unstruct_pos_shape", "ang2dir", "latlon2pos", "pos2latlon",
+           "chordal_to_great_circle", "great_circle_to_chordal", "special.inc_gamma/exp_int/inc_beta",
+           "special.tplstable_cor", "special.tpl_*_spec_dens"]
+
+
+# ---- public helpers of gstools.tools called directly on caller arrays
+def real_geo_tool(cfg, rng, variant):
+    from gstools.tools import geometric as G, special as S
+    fn, lay, opt = cfg
+    w = World("geo_tool", 2)
+    w.nret = 1
+    dim = [3, 2, 4][variant]
+    n_ang = dim * (dim - 1) // 2
+    n = 6
+
+    def one(vals, reshape, label="array"):
+        if fn == 14 and lay == 2:       # tplstable_cor divides its argument: array-likes with "/" only
+            v = np.asarray(vals, dtype=np.float32)
+            w.arg(0, label, [v])
+            return v
+        obj, h = mk_arr(vals, lay, variant, reshape)
+        w.arg(0, label, h)
+        return obj
+
+    def axes(lens):
+        objs, held = [], []
+        for m in lens:
+            o, h = mk_arr(f32exact(np.sort(rng.uniform(0, 10, m))), lay, variant, fn in (5, 6))
+            objs.append(o); held += h
+        w.arg(0, "axes", held)
+        return tuple(objs)
+    if fn == 0:
+        a = one(rng.uniform(0.1, 1.0, [n_ang, n_ang + 2, max(n_ang - 1, 0)][opt]), False, "angles")
+        w.call = lambda: [G.set_angles(dim, a)]
+    elif fn == 1:
+        a = one(rng.uniform(0.3, 0.9, [dim - 1, dim + 1, max(dim - 2, 0)][opt]), False, "anis")
+        w.call = lambda: [G.set_anis(dim, a)]
+    elif fn == 2:
+        if opt == 2:
+            a = one(rng.uniform(0.3, 0.9, dim - 1), False, "anis")
+            f = [G.matrix_isotropify, G.matrix_anisotropify][variant % 2]
+            w.call = lambda: [f(dim, a)]
+        elif opt == 1:
+            a = one(rng.uniform(0.1, 1.0, n_ang), False, "angles")
+            f = [G.matrix_isometrize, G.matrix_anisometrize][variant % 2]
+            w.call = lambda: [f(dim, a, rng.uniform(0.3, 0.9, dim - 1))]
+        else:
+            a = one(rng.uniform(0.1, 1.0, n_ang), False, "angles")
+            f = [G.matrix_rotate, G.matrix_derotate, G.rotated_main_axes][variant]
+            w.call = lambda: [f(dim, a)]
+    elif fn == 3:
+        ax = axes([[4, 6], [4, 6, 4], [4]][opt])
+        w.call = lambda: [G.generate_grid(ax)]
+    elif fn == 4:
+        t = np.linspace(0.0, 3.0, [3, 2, 1][opt]); w.arg(1, "time", [t])
+        if opt == 1:
+            ax = axes([4, 6])
+            w.call = lambda: [G.generate_st_grid(ax, t, mesh_type="structured")]
+        else:
+            pv, _ = base_values(rng, False)
+            pos = one(pv, False, "pos")
+            w.call = lambda: [G.generate_st_grid(pos, t)]
+    elif fn == 5:
+        if opt == 1:
+            a = one(f32exact(rng.uniform(0, 10, 8)), True, "axis")
+            w.call = lambda: [G.format_struct_pos_dim(a, 1)[0]]
+        else:
+            ax = axes([4, 6] if opt == 0 else [4, 6, 4])
+            w.call = lambda: [G.format_struct_pos_dim(ax, len(ax))[0]]
+    elif fn == 6:
+        ax = axes([[4, 6], [4, 6], [4, 4]][opt])
+        shape = [(4, 6), (2, 4, 6), (4, 4)][opt]
+        w.call = lambda: [G.format_struct_pos_shape(ax, shape, check_stacked_shape=(opt == 1))[0]]
+    elif fn == 7:
+        pv, _ = base_values(rng, False)
+        if opt == 2:
+            pos = one(pv[0], False, "pos"); shape = (n,)
+        else:
+            pos = one(pv, False, "pos"); shape = (n,) if opt == 0 else (3, n)
+        w.call = lambda: [G.format_unstruct_pos_shape(pos, shape, check_stacked_shape=(opt == 1))[0]]
+    elif fn == 8:
+        if opt == 0:
+            a = one(rng.uniform(0.1, 1.0, 2), False, "angles"); d = 3
+        elif opt == 1:
+            a = one(rng.uniform(0.1, 1.0, (3, 2)), False, "angles"); d = 3
+        else:
+            a = one(rng.uniform(0.1, 1.0, 3), False, "angles"); d = 2
+        w.call = lambda: [G.ang2dir(a, dtype=np.double, dim=d)]
+    elif fn in (9, 10):
+        temporal = opt > 0
+        radius, tscale = [(1.0, 1.0), (6371.0, 0.5), (1.0, 3.0)][opt]
+        ll = np.vstack([rng.uniform(-80, 80, n), rng.uniform(-170, 170, n)] + ([rng.uniform(0, 10, n)] if temporal else []))
+        if fn == 9:
+            a = one(f32exact(ll), True, "latlon")
+            w.call = lambda: [G.latlon2pos(a, radius=radius, temporal=temporal, time_scale=tscale)]
+        else:
+            a = one(G.latlon2pos(ll, radius=radius, temporal=temporal, time_scale=tscale), True, "pos")
+            w.call = lambda: [G.pos2latlon(a, radius=radius, temporal=temporal, time_scale=tscale)]
+    elif fn in (11, 12):
+        radius = [1.0, 6371.0, 2.0][opt]
+        # distances up to (and, for the non-default sets, beyond) the diameter / half the circumference
+        top = (2.0 if fn == 11 else np.pi) * radius * (1.0 if opt == 0 else 1.5)
+        a = one(np.linspace(0.0, top, 7), False, "dist")
+        f = G.chordal_to_great_circle if fn == 11 else G.great_circle_to_chordal
+        w.call = lambda: [f(a, radius)]
+    elif fn == 13:
+        k = (opt * 3 + variant) % 6
+        x = np.array([0.0, 1e-12, 0.3, 0.9, 0.5, 0.99]) if k == 5 else np.array([0.0, 1e-30, 0.5, 2.0, 40.0, 300.0])
+        a = one(x, False, "x")
+        f, pre = [(S.inc_gamma, (1.5,)), (S.inc_gamma_low, (1.5,)), (S.exp_int, (2.5,)), (S.exp_int, (1.0,)),
+                  (S.exp_int, (3,)), (S.inc_beta, (1.5, 2.0))][k]
+        w.call = lambda: [np.asarray(f(*pre, a))]
+    elif fn == 14:
+        a = one(np.array([0.0, 1e-14, 0.5, 2.0, 30.0, -1.0]), False, "r")
+        ls, hu, al = [(1.0, 0.5, 1.5), (3.0, 0.2, 2.0), (0.5, 0.9, 0.7)][opt]
+        w.call = lambda: [S.tplstable_cor(a, ls, hu, al)]
+    else:
+        a = one(np.array([0.0, 1e-6, 0.1, 1.0, 10.0, 200.0]), False, "k")
+        f = [S.tpl_exp_spec_dens, S.tpl_gau_spec_dens][variant % 2]
+        low = [0.0, 0.5, 0.0][opt]
+        w.call = lambda: [f(a, dim, [1.0, 2.0, 0.3][opt], [0.5, 0.3, 0.8][opt], low)]
+    return w
+
+
+MODEL_METHODS = [["isometrize"], ["anisometrize"], ["cov_spatial", "vario_spatial", "cor_spatial"],
+                 ["variogram", "covariance", "correlation", "cov_nugget", "vario_nugget"],
+                 ["vario_yadrenko", "cov_yadrenko", "cor_yadrenko"],
+                 ["spectral_density", "spectrum", "spectral_rad_pdf", "ln_spectral_rad_pdf"],
+                 ["vario_axis", "cov_axis", "cor_axis"]]
+
+
+def kind_model(kind, variant=0, nugget=0.0):
+    """plain / temporal / lat-lon / lat-lon + time (time anisotropy != 1) model"""
+    import gstools as gs
+    cls = [gs.Gaussian, gs.Exponential, gs.Matern][variant]
+    if kind == 0:
+        return cls(dim=3, var=1.5, len_scale=2.0, anis=[0.7, 0.5], angles=[0.2, 0.3, 0.1], nugget=nugget)
+    if kind == 1:
+        return cls(spatial_dim=2, temporal=True, var=1.5, len_scale=2.0, anis=[0.8, 0.4], angles=0.3, nugget=nugget)
+    if kind == 2:
+        return cls(latlon=True, var=1.5, len_scale=700.0, geo_scale=gs.KM_SCALE, nugget=nugget)
+    return cls(latlon=True, temporal=True, var=1.5, len_scale=700.0, anis=0.25, geo_scale=gs.KM_SCALE, nugget=nugget)
+
+
+# ---- CovModel evaluation methods on caller arrays
+def real_model_eval(cfg, rng, variant):
+    from gstools.tools import geometric as G
+    fn, kind, lay = cfg
+    w = World("model_eval", 1)
+    m = kind_model(kind, variant)
+    names = MODEL_METHODS[fn]
+    meth = getattr(m, names[variant % len(names)])
+    n = 6
+    latlon, temporal = kind >= 2, kind in (1, 3)
+    if fn == 0 or (fn == 2 and False):
+        if latlon:
+            vals = np.vstack([rng.uniform(-80, 80, n), rng.uniform(-170, 170, n)] + ([rng.uniform(0, 10, n)] if temporal else []))
+        else:
+            vals = rng.uniform(0, 10, (3, n))
+        a, h = mk_arr(f32exact(vals), lay, variant, True)
+        w.call = lambda: [meth(a)]
+    elif fn in (1, 2):
+        if latlon:
+            ll = np.vstack([rng.uniform(-80, 80, n), rng.uniform(-170, 170, n)] + ([rng.uniform(0, 10, n)] if temporal else []))
+            vals = G.latlon2pos(ll, radius=m.geo_scale, temporal=temporal, time_scale=0.25)
+        else:
+            vals = rng.uniform(0, 10, (3, n))
+        a, h = mk_arr(vals, lay, variant, True)
+        w.call = lambda: [meth(a)]
+    else:
+        top = 3.0 if (fn == 4 or (latlon and fn != 5)) else 8.0
+        vals = np.linspace(0.0, top, n)
+        a, h = mk_arr(vals, lay, variant, fn == 6 and False)
+        if fn == 6:
+            ax = variant % m.dim
+            w.call = lambda: [meth(a, axis=ax)]
+        else:
+            w.call = lambda: [meth(a)]
+    w.arg(0, "array", h)
+    w.nret = 1
+    return w
+
+
 REALISERS = {
     "vario_estimate": real_vario_estimate, "vario_estimate_axis": real_vario_estimate_axis,
     "standard_bins": real_standard_bins, "field_call": real_field_call, "post_field": real_post_field,
@@ -1307,7 +1550,7 @@ REALISERS = {
     "transform": real_transform, "srf_call": real_srf_call, "krige_condition": real_krige_condition,
     "krige_call": real_krige_call, "condsrf_call": real_condsrf_call, "fit_variogram": real_fit_variogram,
     "normalizer": real_normalizer, "generator": real_generator, "array_fn": real_array_fn,
-    "covmodel": real_covmodel,
+    "covmodel": real_covmodel, "geo_tool": real_geo_tool, "model_eval": real_model_eval,
 }
 
 
